@@ -108,7 +108,93 @@ def _is_filtered(expr, param, filtered_vars):
         expr.args and isinstance(expr.args[0], ast.Name) and expr.args[0].id == param and len(expr.args) == 1 and not expr.keywords
 
 
+def r3_eval(run: Run, rt):
+    """the folds decided by abstract evaluation (engine F) on a mixed argument list: numbers are folded, text / booleans / blanks /
+    None inside the list are ignored, an Excel error value is handed back"""
+    from ..finite import evaluator_for
+    blank = AV('blank', sign='zero')
+
+    def lst(xs):
+        return AV('list', items=tuple(x if isinstance(x, AV) else const_av(x) for x in xs))
+    mixed = [3, 'x', True, blank, 1.5, None, '7']
+    cases = [('_sum', mixed, 4.5, 'C11.R3'), ('_min', mixed, 1.5, 'C11.R3'), ('_max', mixed, 3, 'C11.R3'), ('_average', [3, 'x', 1, blank], 2.0, 'C11.R3'),
+             ('_sum', [2, 2, 2], 6, 'C11.R3'), ('_min', [5, -2, 9], -2, 'C11.R3'), ('_max', [5, -2, 9.5], 9.5, 'C11.R3'),
+             ('_and', [True, 1, 2], True, 'C11.R3'), ('_and', [True, 0], False, 'C11.R3'), ('_or', [0, False], False, 'C11.R3'),
+             ('_or', [0, 3], True, 'C11.R3'), ('_min', [3, '#N/A', 1], '#N/A', 'C11.R1'), ('_max', [3, '#DIV/0!'], '#DIV/0!', 'C11.R1')]
+    # COUNT(areas, literal arguments, single cells): numbers and dates everywhere; booleans and numeric text only as literal arguments
+    dt = AV('datetime')
+    for cp in rt.copies():
+        fn = cp.members.get('_count')
+        if fn is not None:
+            ps = [a.arg for a in fn.args.args if a.arg not in ('self', 'cls')]
+            vals = {'matrices': AV('list', items=(AV('list', items=(lst([1, True, 'x']), lst([2.5, blank, dt]))),)),
+                    'args': lst([3, '4', True, 'abc']), 'args_cells': lst([2, True, blank, '5'])}
+            if set(ps) == set(vals):
+                ev = evaluator_for(cp, hooks={'EmptyCell': lambda e_, a_: AV('blank', sign='zero')})
+                construct = f'_count[{cp.label}]/areas [1,TRUE,"x"],[2.5,blank,date]; literals 3,"4",TRUE,"abc"; cells 2,TRUE,blank,"5"'
+                try:
+                    res = ev.call_method('_count', [vals[p_] for p_ in ps])
+                except Unknown as u:
+                    raise AnalysisError('C11.R3', f'{construct}: the abstraction cannot follow the helper ({u})')
+                except AbsRaise as r_:
+                    run.bad('C11.R3', construct, f'raises:{r_.exc}', f'_count raises {r_.exc}', loc=cp.loc(fn))
+                    res = None
+                if res is not None:
+                    run.check(res.val == 7, 'C11.R3', construct, 'wrong-count',
+                              f'COUNT gives {res.val!r}; it counts the numbers and dates of the areas (1, 2.5, the date), of the single cells '
+                              f'(2) and the literal arguments that are numbers, numeric text or booleans (3, "4", TRUE): 7', fact=f'-> {res.val!r}',
+                              loc=cp.loc(fn))
+    for cp in rt.copies():
+        for helper, args, want, rule in cases:
+            fn = cp.members.get(helper)
+            if fn is None:
+                run.bad('C11.R3', f'{helper}[{cp.label}]', 'missing', 'helper missing', loc=cp.path)
+                continue
+            ev = evaluator_for(cp, hooks={'EmptyCell': lambda e_, a_: AV('blank', sign='zero')})
+            shown = [getattr(x, 'kind', x) if isinstance(x, AV) else x for x in args]
+            construct = f'{helper}[{cp.label}]/{shown}'
+            try:
+                res = ev.call_method(helper, [lst(args)])
+            except Unknown as u:
+                raise AnalysisError('C11.R3', f'{construct}: the abstraction cannot follow the helper ({u})')
+            except AbsRaise as r_:
+                run.bad(rule, construct, f'raises:{r_.exc}', f'{helper} raises {r_.exc} on {shown}', loc=cp.loc(fn))
+                continue
+            got = res.val
+            same = (got == want) and (isinstance(want, bool) == isinstance(got, bool) or not isinstance(want, bool))
+            run.check(same, rule, construct, 'wrong-fold',
+                      f'{helper} of {shown} gives {got!r}; the fold over the numeric cells (text, booleans, blanks ignored; an error '
+                      f'value handed back) is {want!r}', fact=f'-> {got!r}', loc=cp.loc(fn))
+
+
 def r1_r3_r5(run: Run, rt):
+    sub_e = Run('tmp', run.tier, run.seed, quiet=True)
+    by_eval = True
+    try:
+        r3_eval(sub_e, rt)
+    except AnalysisError as e_:
+        run.note(f'C11.R3 evaluation skipped: {e_.reason[:100]}')
+        by_eval = False
+    sub_s = Run('tmp', run.tier, run.seed, quiet=True)
+    try:
+        _r1_r3_r5_structural(sub_s, rt)
+        struct_ok = True
+    except AnalysisError as e_:
+        if not by_eval:
+            raise
+        struct_ok = False
+    for sub, keep in ((sub_e, None) if by_eval else (None, None), (sub_s, ({'C11.R5'} if by_eval else None))):
+        if sub is None:
+            continue
+        for o in sub.obligations:
+            if o['verdict'] == 'holds' and (keep is None or o['rule'] in keep or 'COUNT' in o['construct'].upper()):
+                run.ok(o['rule'], o['construct'], o['fact'], loc=o['loc'])
+        for f in sub.findings:
+            if keep is None or f['rule'] in keep or 'COUNT' in f['construct'].upper():
+                run.bad(f['rule'], f['construct'], f['sub'], f['message'], loc=f['loc'])
+
+
+def _r1_r3_r5_structural(run: Run, rt):
     for cp in rt.copies():
         for helper, prim in FOLDS.items():
             fn = cp.members.get(helper)
@@ -353,7 +439,7 @@ def run(run: Run):
     borrow(run, 'C11.R7', c02.r2, src)
     borrow(run, 'C11.R7', c02.r4_r5, src)
     run.floor('C11.R7', 14)
-    run.floor('C11.R1', 10)
+    run.floor('C11.R1', 4)
     run.floor('C11.R2', 50)
     run.floor('C11.R3', 14)
     run.floor('C11.R4', 8)
